@@ -487,6 +487,22 @@ int simSbrkForeign(unsigned long pages)
 	return 1;
 }
 char *simLastForeign(unsigned long *pages) { *pages = lastForeignPages; return lastForeignBase; }
+/* Somebody else moves the break by an arbitrary number of BYTES (the next grant to the
+ * allocator then starts at an unaligned address). */
+int simSbrkForeignBytes(unsigned long nbytes)
+{
+	char *nb;
+	unsigned long i;
+	arenaInit();
+	if (arenaOff || !nbytes) return 0;
+	nb = arenaBrk + nbytes;
+	if ((unsigned long) (nb - arenaBase) > P.sbrkCap || !arenaGrow(nb)) return 0;
+	for (i = 0; i < nbytes; i++) arenaBrk[i] = (char) 0x21;
+	simLog("B %lu foreignbytes %lu %lu\n", nSbrk, nbytes, (unsigned long) (arenaBrk - arenaBase));
+	arenaBrk = nb;
+	nSbrkForeign++;
+	return 1;
+}
 unsigned long simArenaCap(void) { planLoad(); return P.sbrkCap; }
 char *simArenaBase(void) { return arenaBase; }
 char *simArenaBrk(void) { return arenaBrk; }
